@@ -154,10 +154,12 @@ class DataTypeBuilder(_parser.StatementStreamProcessor):
     def on_field(self, field_type: _serializable.SerializableType, name: str) -> None:
         self._on_attribute()
         _serializable.Field(field_type, name)  # Validate now: the queued attribute is committed later.
+        self._structs[-1].ensure_field_can_be_added()
         self._queue_attribute(lambda doc: self._structs[-1].add_field(_serializable.Field(field_type, name, doc)))
 
     def on_padding_field(self, padding_field_type: _serializable.VoidType) -> None:
         self._on_attribute()
+        self._structs[-1].ensure_field_can_be_added()
         self._queue_attribute(
             lambda doc: self._structs[-1].add_field(_serializable.PaddingField(padding_field_type, doc))
         )
